@@ -36,10 +36,15 @@ Definition shape (p : pc) : Z :=
            2 dq_state = m_prev, 3 the cancel flag (m_prev <> 0).
    m_sh: shape of the thread's program point after the action.
    m_st / m_pend: the word after the action; -1: the action must not change it.
-   m_chk / m_cv: 0 nothing; 1 the latched value is m_cv; 2 the value delivered to the handler is m_cv. *)
-Record mact := { m_kind : Z; m_a1 : Z; m_a2 : Z; m_prew : Z; m_prev : Z; m_sh : Z; m_st : Z; m_pend : Z; m_chk : Z; m_cv : Z }.
-Definition MA (k a1 a2 pw pv sh stv pe ck cv : Z) : mact :=
-  {| m_kind := k; m_a1 := a1; m_a2 := a2; m_prew := pw; m_prev := pv; m_sh := sh; m_st := stv; m_pend := pe; m_chk := ck; m_cv := cv |}.
+   m_chk / m_cv: 0 nothing; 1 the latched value is m_cv; 2 the value delivered to the handler is m_cv.
+   m_sidx / m_pidx: position of the action in the exact old -> new chain of dq_state / ds_pending_data writes that the
+           checker reconstructed (-1: none); a write is taken only when it is the next one of its chain (this only
+           restricts the scheduler: values recur, e.g. ds_pending_data = 0 before every first merge after a latch). *)
+Record mact := { m_kind : Z; m_a1 : Z; m_a2 : Z; m_prew : Z; m_prev : Z; m_sh : Z; m_st : Z; m_pend : Z; m_chk : Z; m_cv : Z;
+                 m_sidx : Z; m_pidx : Z }.
+Definition MA (k a1 a2 pw pv sh stv pe ck cv si pi : Z) : mact :=
+  {| m_kind := k; m_a1 := a1; m_a2 := a2; m_prew := pw; m_prev := pv; m_sh := sh; m_st := stv; m_pend := pe; m_chk := ck; m_cv := cv;
+     m_sidx := si; m_pidx := pi |}.
 
 Record sact := { s_tid : Z; s_act : mact }.
 
@@ -69,9 +74,12 @@ Definition call_of (m : mact) : option call :=
   else if m_kind m =? 7 then Some (CActivate (m_a1 m))
   else None.
 
-Definition try_act (c : cfg) (s : gst) (a : sact) : option gst :=
+Definition eligible (ns np : Z) (m : mact) : bool :=
+  ((m_sidx m =? -1) || (m_sidx m =? ns)) && ((m_pidx m =? -1) || (m_pidx m =? np)).
+
+Definition try_act (c : cfg) (ns np : Z) (s : gst) (a : sact) : option gst :=
   let t := s_tid a in let m := s_act a in
-  if valid_b t && pre_ok s m then
+  if valid_b t && eligible ns np m && pre_ok s m then
     match (if m_kind m =? 0 then gstep c s t else match call_of m with Some k => begin s t k | None => None end) with
     | Some s' => if post_ok s s' t m then Some s' else None
     | None => None
@@ -94,28 +102,28 @@ Definition is_obs (m : mact) : bool :=
 
 (* among the first w distinct threads of the preferred order: the first whose next action is enabled with the recorded
    outcome (only_obs: only observations are considered) *)
-Fixpoint pick (c : cfg) (only_obs : bool) (s : gst) (qs : list (Z * list sact)) (ord : list Z) (seen : list Z) (w d : nat) {struct ord}
-    : option (Z * gst) :=
+Fixpoint pick (c : cfg) (ns np : Z) (only_obs : bool) (s : gst) (qs : list (Z * list sact)) (ord : list Z) (seen : list Z) (w d : nat) {struct ord}
+    : option (Z * gst * mact) :=
   match w, d, ord with
   | O, _, _ | _, O, _ | _, _, [] => None
   | S w', S d', t :: r =>
-      if existsb (Z.eqb t) seen then pick c only_obs s qs r seen w d'
+      if existsb (Z.eqb t) seen then pick c ns np only_obs s qs r seen w d'
       else match lookup t qs with
-           | a :: _ => match (if negb only_obs || is_obs (s_act a) then try_act c s a else None) with
-                       | Some s' => Some (t, s')
-                       | None => pick c only_obs s qs r (t :: seen) w' d'
+           | a :: _ => match (if negb only_obs || is_obs (s_act a) then try_act c ns np s a else None) with
+                       | Some s' => Some (t, s', s_act a)
+                       | None => pick c ns np only_obs s qs r (t :: seen) w' d'
                        end
-           | [] => pick c only_obs s qs r (t :: seen) w' d'
+           | [] => pick c ns np only_obs s qs r (t :: seen) w' d'
            end
   end.
 (* look a little ahead in the preferred order first (stamp inversions are local); only when nothing is enabled there, further *)
-Fixpoint pick2 (c : cfg) (s : gst) (qs : list (Z * list sact)) (ord : list Z) (w : nat) (depths : list nat) : option (Z * gst) :=
+Fixpoint pick2 (c : cfg) (ns np : Z) (s : gst) (qs : list (Z * list sact)) (ord : list Z) (w : nat) (depths : list nat) : option (Z * gst * mact) :=
   match depths with
   | [] => None
   | d :: ds =>
-      match pick c true s qs ord [] w d with
+      match pick c ns np true s qs ord [] w d with
       | Some r => Some r
-      | None => match pick c false s qs ord [] w d with Some r => Some r | None => pick2 c s qs ord w ds end
+      | None => match pick c ns np false s qs ord [] w d with Some r => Some r | None => pick2 c ns np s qs ord w ds end
       end
   end.
 
@@ -195,15 +203,17 @@ Definition inv_b (c : cfg) (L : list Z) (s : gst) : bool :=
    | Some a, Some b => a =? b | None, None => true | _, _ => false end) &&
   forallb (thread_b s) L.
 
-Fixpoint sched (c : cfg) (L : list Z) (depths : list nat) (fuel : nat) (w : nat) (s : gst) (qs : list (Z * list sact)) (ord : list Z) (done : Z) (ok : bool)
+Fixpoint sched (c : cfg) (L : list Z) (depths : list nat) (fuel : nat) (w : nat) (ns np : Z) (s : gst) (qs : list (Z * list sact)) (ord : list Z) (done : Z) (ok : bool)
     : gst * Z * list Z * bool * list (Z * list sact) :=
   match fuel with
   | O => (s, done, ord, ok, qs)
   | S f =>
       match ord with
       | [] => (s, done, [], ok, qs)
-      | _ => match pick2 c s qs ord w depths with
-             | Some (t, s') => sched c L depths f w s' (pop_q t qs) (remove_first t ord) (done + 1) (ok && inv_b c L s')
+      | _ => match pick2 c ns np s qs ord w depths with
+             | Some (t, s', m) =>
+                 sched c L depths f w (if m_sidx m =? -1 then ns else ns + 1) (if m_pidx m =? -1 then np else np + 1)
+                       s' (pop_q t qs) (remove_first t ord) (done + 1) (ok && inv_b c L s')
              | None => (s, done, ord, ok, qs)
              end
       end
@@ -229,8 +239,9 @@ Definition token_code (s : gst) : Z := match token s with None => 0 | Some None 
 Definition replay (c : cfg) (w0 : Z) (inst : bool) (w : nat) (depths : list nat) (fb : bool) (qs : list (Z * list sact)) (ord : list Z) : list Z :=
   let L := map fst qs in
   let s0 := init_from w0 inst in
-  let '(s, done, rest, ok, qs') := sched c L (if fb then depths ++ [length ord] else depths) (S (length ord)) w s0 qs ord 0 (init_word_ok w0 && inv_b c L s0) in
+  let '(s, done, rest, ok, qs') := sched c L (if fb then depths ++ [length ord] else depths) (S (length ord)) w 0 0 s0 qs ord 0 (init_word_ok w0 && inv_b c L s0) in
   [done; Z.of_nat (length rest); st s; pend s; rootq s; b2z (all_idle s L); b2z ok; token_code s; b2z (cancelled s);
    Z.of_nat (length (delivered s)); Z.of_nat (length (merged s)); match rest with t :: _ => t | [] => -1 end;
    match rest with t :: _ => shape (pcs s t) | [] => -1 end;
-   match rest with t :: _ => Z.of_nat (length (lookup t qs')) | [] => 0 end].
+   match rest with t :: _ => Z.of_nat (length (lookup t qs')) | [] => 0 end]
+  ++ concat (map (fun x => match snd x with [] => [] | _ => [fst x; Z.of_nat (length (snd x)); shape (pcs s (fst x))] end) qs').
